@@ -13,6 +13,7 @@ From Coq Require Import List NArith String.
 From Wbxml Require Import Model.Codec Model.TablesDefs Model.EncWbxml Model.TreeNorm Proofs.EncWbxmlProofs Proofs.EncWbxmlSerialize Proofs.EncWbxmlDenote Proofs.EncWbxmlAbs Proofs.EncWbxmlStrict2 Proofs.EncWbxmlDenote2
      Model.EncWbxmlEvents Proofs.EncWbxmlTblOk Proofs.EncWbxmlDenote3 Proofs.EncWbxmlAbs4 Proofs.EncWbxmlDenote4 Proofs.EncWbxmlAbs5 Model.EncWbxmlTables Proofs.EncWbxmlDenote5 Proofs.EncWbxmlCanon Proofs.EncWbxmlDenoteWv
      Proofs.EncWbxmlDenote6 Proofs.EncWbxmlClass6 Proofs.EncWbxmlClasses Proofs.EncWbxmlUnion Proofs.EncWbxmlCanon2 Proofs.EncWbxmlUnionPub.
+From Wbxml Require Import Model.EncWbxmlTextPid Proofs.EncWbxmlTextPid.
 From Wbxml Require Model.Parser Model.Spec.
 Import ListNotations.
 Local Open Scope N_scope.
@@ -689,3 +690,42 @@ Theorem C06_encoder_public_id_field_union : forall tblb TBL L o tag attrs ch bs,
                end.
 Proof. exact strict_decode_of_encoding6_pub. Qed.
 Print Assumptions C06_encoder_public_id_field_union.
+
+(* ---- wbxml_encoder_set_text_public_id ("generate textual Public ID instead of token") -------------------------------------
+   The option is read at one place (wbxml_fill_header) and the language's numeric public id nowhere else, so the encoder
+   with the option set IS the encoder run on the language with its numeric id replaced by 'unknown'
+   (Model/EncWbxmlTextPid.v; tied to the C on every run: the harness sets the option on a real encoder).  Hence every
+   theorem of this file, all of them stated for an arbitrary language record, holds with the option set; the grammar
+   theorem is restated here.  The option changes nothing for a language without XML public identifier or whose numeric id is
+   'unknown' already, and otherwise the header carries  version, 0x00, mb_u_int32(index into the string table). *)
+Theorem C06_text_public_id_output_is_serialize_of_strict_doc : forall tbl l o tag attrs ch bs,
+  let e := enc_env (with_text_pubid l) o in
+  tag_tbl_ok (enc_env l o) = true -> frag5_node (NElt tag attrs ch) = true ->
+  enc_wbxml_textpid tbl l o [NElt tag attrs ch] = EOk bs -> len bs < 4294967296 ->
+  exists body st' root,
+    enc_body tbl (with_text_pubid l) o [NElt tag attrs ch] = EOk (body, st') /\
+    abs_node5 tbl e None (NElt tag attrs ch) (start_state e [NElt tag attrs ch]) = Some ([root], st') /\
+    bs = Spec.serialize (abs_doc2 e st' root) /\ Spec.strict_doc (abs_doc2 e st' root) = true.
+Proof.
+  intros tbl l o tag attrs ch bs e Ht Hf He Hl. apply (enc_wbxml_full tbl (with_text_pubid l) o tag attrs ch bs); auto.
+  rewrite tag_tbl_ok_textpid. exact Ht.
+Qed.
+Print Assumptions C06_text_public_id_output_is_serialize_of_strict_doc.
+
+Theorem C06_text_public_id_changes_only_the_numeric_id : forall l,
+  bl_id (with_text_pubid l) = bl_id l /\ bl_pub_text (with_text_pubid l) = bl_pub_text l /\
+  bl_tags (with_text_pubid l) = bl_tags l /\ bl_attrs (with_text_pubid l) = bl_attrs l /\
+  bl_vals (with_text_pubid l) = bl_vals l /\ bl_exts (with_text_pubid l) = bl_exts l.
+Proof. exact with_text_pubid_fields. Qed.
+Print Assumptions C06_text_public_id_changes_only_the_numeric_id.
+
+Theorem C06_text_public_id_no_effect : forall tbl l o roots,
+  bl_pub_text l = None \/ bl_pub_num l = 1%N -> enc_wbxml_textpid tbl l o roots = enc_wbxml tbl l o roots.
+Proof. intros tbl l o roots [H|H]; [apply textpid_no_text|apply textpid_unknown]; exact H. Qed.
+Print Assumptions C06_text_public_id_no_effect.
+
+Theorem C06_text_public_id_header_form : forall l o st p,
+  bl_pub_text l = Some p -> o_anonymous o = false ->
+  exists idx rest, fill_header (enc_env (with_text_pubid l) o) st = (u8 (o_version o) :: 0 :: mb_write idx ++ rest)%N.
+Proof. exact textpid_header_form. Qed.
+Print Assumptions C06_text_public_id_header_form.
